@@ -54,6 +54,52 @@ class Ctx:
             ty = m.group(1)
         return self.sizes.get(ty)
 
+    def ok_return_range(self, path, depth=0):
+        """range of v over every `Ok(v)` a local fn returning Result<int, _> can return (its `?` exits return errors)"""
+        key = ("ok", path)
+        if key in self._const_ret:
+            return self._const_ret[key]
+        self._const_ret[key] = None          # recursion guard
+        out = None
+        bodies = [m for p, m, _ in self.G.bodies.get(path, []) if p == path]
+        if bodies and depth < 4:
+            mir = bodies[0]
+            work = [0]
+            seen = set()
+            ok = True
+            while work and ok:
+                l = work.pop()
+                if l in seen:
+                    continue
+                seen.add(l)
+                dd = defs_of(mir, l)
+                if not dd or len(seen) > 12:
+                    ok = False
+                    break
+                for _, d in dd:
+                    if "r" in d:
+                        r = d["r"]
+                        if r.get("rv") == "use" and operand_local(r["a"]) is not None:
+                            work.append(operand_local(r["a"]))
+                        elif r.get("rv") == "agg" and re.search(r"Result#0$", r.get("kind") or "") and len(r["ops"]) == 1:
+                            x = rng(self, mir, r["ops"][0], depth + 1)
+                            if x is None:
+                                ok = False
+                            else:
+                                out = x if out is None else (min(out[0], x[0]), max(out[1], x[1]))
+                        elif r.get("rv") == "agg" and re.search(r"Result#1$", r.get("kind") or ""):
+                            continue
+                        else:
+                            ok = False
+                    elif d.get("t") == "call" and (d.get("fn") or "").endswith("FromResidual::from_residual"):
+                        continue             # the `?` exit: an Err
+                    else:
+                        ok = False
+            if not ok:
+                out = None
+        self._const_ret[key] = out
+        return out
+
     def const_return(self, path):
         """range of a local fn whose every assignment to the return place is an integer constant"""
         if path in self._const_ret:
@@ -200,7 +246,16 @@ def try_payload_range(ctx, mir, cf_local, depth):
             return None
         for _, d in dd:
             if "r" not in d:
-                return None          # a call result: nothing known beyond its type
+                # a call result: a local function's Ok payload range, when every value it returns is visibly Ok(bounded) / an error
+                if d.get("t") == "call" and (d.get("fn") or "").endswith("FromResidual::from_residual") and "Result<" in ((d.get("gargs") or [""])[0] or ""):
+                    continue         # the `?` exit of an inlined helper: always an Err, never the Continue payload
+                if d.get("t") == "call":
+                    c = d.get("resolved") or d.get("fn") or ""
+                    x = ctx.ok_return_range(reach.owner_of(c), depth) if reach.owner_of(c) in ctx.G.local else None
+                    if x is not None:
+                        out = x if out is None else (min(out[0], x[0]), max(out[1], x[1]))
+                        continue
+                return None
             r = d["r"]
             if r.get("rv") == "use":
                 work.append(r["a"])
